@@ -347,6 +347,8 @@ func genRegexExh(n int, emit func(string)) {
 func listRuleLines(repo string) []string {
 	var out []string
 	files, _ := filepath.Glob(filepath.Join(repo, "testdata", "*.txt"))
+	more, _ := filepath.Glob(filepath.Join(repo, "examples", "proxy", "*.txt"))
+	files = append(files, more...)
 	sort.Strings(files)
 	for _, fn := range files {
 		f, err := os.Open(fn)
